@@ -159,10 +159,10 @@ theorem step_nrefused (t : TreeTable) (op : Op) (m : Mem) :
   · unfold lastValue; cases t.root.maxEntry <;> simp
   · unfold greaterThan; generalize t.lookup cmp _ = r; rcases r with ⟨_ | v, n⟩
     · simp
-    · cases Tree.nextAfter t.root.toList _ <;> simp
+    · cases Tree.succOfKey cmp t.root _ <;> simp
   · unfold lesserThan; generalize t.lookup cmp _ = r; rcases r with ⟨_ | v, n⟩
     · simp
-    · cases Tree.prevBefore t.root.toList _ <;> simp
+    · cases Tree.predOfKey cmp t.root _ <;> simp
   · simp
   · simp
   · simp
